@@ -287,6 +287,47 @@ Section Programs.
     - rewrite drops_right_only by exact Hl'. apply Permutation_refl.
   Qed.
 
+  (* ---- the trait-default GenericSequence::inverted_zip (src/sequence.rs): lhs is an owned array
+          (argument 1, behind an ArrayConsumer), self any sequence iterated by value (argument 0):
+          owned.zip(&rhs, f) and owned.zip(&mut rhs, f) run this body ---- *)
+  Lemma dzip_good a b so nd :
+    good [b; a] so f g pan (pipe_of gen_default_inverted_zip nd) (zrows a b) [true; so].
+  Proof.
+    intros i st row Hrow Hp Hl. unfold zrows in Hrow. rewrite nth_error_map in Hrow.
+    destruct (nth_error (combine a b) i) as [[x y]|] eqn:Hxy; [|discriminate]. injection Hrow as <-.
+    apply nth_combine in Hxy. destruct Hxy as [Hx Hy]. cbn [fst snd] in *.
+    destruct so; pipe_step Hp Hl.
+    all: destruct (Z.eqb_spec x y) as [->|Hne]; cbn; rewrite ?Z.eqb_refl, ?app_nil_r; reflexivity.
+  Qed.
+
+  Lemma drops_left_only : forall a b, length a = length b ->
+    flat_map (fun r => map EDrop (owned_ids [true; false] r)) (zrows a b) = map EDrop a.
+  Proof.
+    induction a as [|x a IH]; intros [|y b] H; cbn in *; try discriminate; [reflexivity|].
+    injection H as H. now rewrite <- (IH b H).
+  Qed.
+
+  Theorem tie_default_zip a b so nd : length a = length b ->
+    agrees (run_from_iter [b; a] so f g pan (pipe_of gen_default_inverted_zip nd) (length a))
+           (zip_ true so f pan a b).
+  Proof.
+    intros Hlen.
+    pose proof (from_iter_run [b; a] so f g pan _ _ _ (nb_of gen_default_inverted_zip nd eq_refl) (dzip_good a b so nd)) as H.
+    rewrite (zrows_length a b Hlen) in H. rewrite H. unfold zip_, zipmap. fold (zrows a b).
+    rewrite (zrows_length a b Hlen).
+    destruct (try_from_iter (length a) (pipe_src f pan (zrows a b))) as [[o e] p].
+    cbv zeta. unfold agrees. eexists. split; [reflexivity|].
+    unfold teardown.
+    rewrite (final_positions [b; a] so f g pan _ _ _ (nb_of gen_default_inverted_zip nd eq_refl) (dzip_good a b so nd)) by (rewrite zrows_length by exact Hlen; lia).
+    unfold pipe_of, gen_default_inverted_zip, select. cbn.
+    unfold zrows. rewrite skipn_map, skipn_combine. fold (zrows (skipn (Nat.min p (length a)) a) (skipn (Nat.min p (length a)) b)).
+    assert (Hl' : length (skipn (Nat.min p (length a)) a) = length (skipn (Nat.min p (length a)) b))
+      by (rewrite !skipn_length; lia).
+    destruct so; cbn; rewrite ?app_nil_r.
+    - now apply drops_pairs.
+    - rewrite drops_left_only by exact Hl'. apply Permutation_refl.
+  Qed.
+
   (* ---- the branches taken when no element type involved has drop glue: the arrays are
           ManuallyDrop'd and read slot by slot; the caller's function is called on the same
           rows in the same order and the result is the same; this function drops nothing
